@@ -286,7 +286,7 @@ pub fn sdd_tt_m(p: SddPtr, memo: &mut SddMemo) -> Tt {
     match p {
         SddPtr::PtrTrue => Tt::TRUE,
         SddPtr::PtrFalse => Tt::FALSE,
-        SddPtr::Var(l, pol) => Tt::lit(l.value_usize(), pol),
+        SddPtr::Var(l, pol) => Tt::lit(oracle_var_of(l.value_usize()), pol),
         _ => {
             let key = sdd_key(p).unwrap();
             let reg = if let Some(t) = memo.get(&key) {
